@@ -30,6 +30,7 @@ use std::io::Cursor;
 use std::net::{IpAddr, Ipv4Addr, Ipv6Addr};
 use std::sync::Arc;
 
+#[derive(Debug)]
 struct BadCase(&'static str);
 
 fn v4addr(v: &Val) -> Ipv4Addr {
@@ -210,6 +211,190 @@ fn fs6_comp_val(c: &flowspec::FlowspecV6Component) -> Val {
         C::FlowLabel(o) => ops(13, o),
     }
 }
+// BGP-LS: descriptors travel as <type, value> pairs; the struct fields / enum variants are built from them
+fn tlvs_of(v: &Val) -> Vec<(u16, Vec<u8>)> {
+    v.list().iter().map(|t| (t.at(0).u16(), t.at(1).bytes())).collect()
+}
+fn tlvs_val(t: &[(u16, Vec<u8>)]) -> Val {
+    Val::L(t.iter().map(|(ty, v)| Val::L(vec![Val::n(*ty), Val::from_bytes(v)])).collect())
+}
+fn u32_of(b: &[u8]) -> Result<u32, BadCase> {
+    let a: [u8; 4] = b.try_into().map_err(|_| BadCase("u32 field"))?;
+    Ok(u32::from_be_bytes(a))
+}
+fn node_desc_of(v: &Val) -> Result<ls::NodeDescriptor, BadCase> {
+    let mut nd = ls::NodeDescriptor::default();
+    let mut last = 0u16;
+    for (ty, val) in tlvs_of(v) {
+        if ty <= last {
+            return Err(BadCase("node descriptor order"));
+        }
+        last = ty;
+        match ty {
+            512 => nd.asn = Some(u32_of(&val)?),
+            513 => nd.bgp_ls_id = Some(u32_of(&val)?),
+            514 => nd.ospf_area_id = Some(u32_of(&val)?),
+            515 => nd.igp_router_id = Some(val),
+            516 => nd.bgp_router_id = Some(val[..].try_into().map_err(|_| BadCase("router id"))?),
+            517 => nd.bgp_confederation_member = Some(u32_of(&val)?),
+            _ => return Err(BadCase("node descriptor type")),
+        }
+    }
+    Ok(nd)
+}
+fn node_desc_val(nd: &ls::NodeDescriptor) -> Val {
+    let mut t: Vec<(u16, Vec<u8>)> = Vec::new();
+    if let Some(x) = nd.asn { t.push((512, x.to_be_bytes().to_vec())); }
+    if let Some(x) = nd.bgp_ls_id { t.push((513, x.to_be_bytes().to_vec())); }
+    if let Some(x) = nd.ospf_area_id { t.push((514, x.to_be_bytes().to_vec())); }
+    if let Some(x) = &nd.igp_router_id { t.push((515, x.clone())); }
+    if let Some(x) = nd.bgp_router_id { t.push((516, x.to_vec())); }
+    if let Some(x) = nd.bgp_confederation_member { t.push((517, x.to_be_bytes().to_vec())); }
+    tlvs_val(&t)
+}
+fn mt_ids(v: &[u8]) -> Vec<u16> {
+    v.chunks_exact(2).map(|b| u16::from_be_bytes([b[0], b[1]])).collect()
+}
+fn link_desc_of(v: &Val) -> Vec<ls::LinkDescTlv> {
+    use ls::LinkDescTlv as L;
+    tlvs_of(v)
+        .into_iter()
+        .map(|(ty, val)| match (ty, val.len()) {
+            (258, 8) => L::LinkId { local: u32_of(&val[..4]).unwrap(), remote: u32_of(&val[4..]).unwrap() },
+            (259, 4) => L::Ipv4InterfaceAddr(val[..].try_into().unwrap()),
+            (260, 4) => L::Ipv4NeighborAddr(val[..].try_into().unwrap()),
+            (261, 16) => L::Ipv6InterfaceAddr(val[..].try_into().unwrap()),
+            (262, 16) => L::Ipv6NeighborAddr(val[..].try_into().unwrap()),
+            (263, n) if n % 2 == 0 => L::MultiTopoId(mt_ids(&val)),
+            _ => L::Unknown { tlv_type: ty, value: val },
+        })
+        .collect()
+}
+fn link_desc_val(t: &[ls::LinkDescTlv]) -> Val {
+    use ls::LinkDescTlv as L;
+    let v: Vec<(u16, Vec<u8>)> = t
+        .iter()
+        .map(|x| match x {
+            L::LinkId { local, remote } => {
+                let mut b = local.to_be_bytes().to_vec();
+                b.extend_from_slice(&remote.to_be_bytes());
+                (258, b)
+            }
+            L::Ipv4InterfaceAddr(a) => (259, a.to_vec()),
+            L::Ipv4NeighborAddr(a) => (260, a.to_vec()),
+            L::Ipv6InterfaceAddr(a) => (261, a.to_vec()),
+            L::Ipv6NeighborAddr(a) => (262, a.to_vec()),
+            L::MultiTopoId(ids) => (263, ids.iter().flat_map(|i| i.to_be_bytes()).collect()),
+            L::Unknown { tlv_type, value } => (*tlv_type, value.clone()),
+        })
+        .collect();
+    tlvs_val(&v)
+}
+fn prefix_desc_of(v: &Val) -> Vec<ls::PrefixDescTlv> {
+    use ls::PrefixDescTlv as P;
+    tlvs_of(v)
+        .into_iter()
+        .map(|(ty, val)| match (ty, val.len()) {
+            (263, n) if n % 2 == 0 => P::MultiTopoId(mt_ids(&val)),
+            (264, 1) => P::OspfRouteType(val[0]),
+            (265, n) if n >= 1 => P::IpReachability { prefix_len: val[0], addr: val[1..].to_vec() },
+            _ => P::Unknown { tlv_type: ty, value: val },
+        })
+        .collect()
+}
+fn prefix_desc_val(t: &[ls::PrefixDescTlv]) -> Val {
+    use ls::PrefixDescTlv as P;
+    let v: Vec<(u16, Vec<u8>)> = t
+        .iter()
+        .map(|x| match x {
+            P::MultiTopoId(ids) => (263, ids.iter().flat_map(|i| i.to_be_bytes()).collect()),
+            P::OspfRouteType(t) => (264, vec![*t]),
+            P::IpReachability { prefix_len, addr } => {
+                let mut b = vec![*prefix_len];
+                b.extend_from_slice(addr);
+                (265, b)
+            }
+            P::Unknown { tlv_type, value } => (*tlv_type, value.clone()),
+        })
+        .collect();
+    tlvs_val(&v)
+}
+fn ls_of(l: &[Val]) -> Result<ls::BgpLsNlri, BadCase> {
+    Ok(match l[1].int() {
+        1 => ls::BgpLsNlri::Node(ls::BgpLsNodeNlri { protocol_id: l[2].u8(), identifier: l[3].u64(), local_node: node_desc_of(&l[4])? }),
+        2 => ls::BgpLsNlri::Link(ls::BgpLsLinkNlri {
+            protocol_id: l[2].u8(),
+            identifier: l[3].u64(),
+            local_node: node_desc_of(&l[4])?,
+            remote_node: node_desc_of(&l[5])?,
+            link_desc: link_desc_of(&l[6]),
+        }),
+        3 | 4 => {
+            let n = ls::BgpLsPrefixNlri {
+                protocol_id: l[2].u8(),
+                identifier: l[3].u64(),
+                local_node: node_desc_of(&l[4])?,
+                prefix_desc: prefix_desc_of(&l[5]),
+            };
+            if l[1].int() == 3 { ls::BgpLsNlri::PrefixV4(n) } else { ls::BgpLsNlri::PrefixV6(n) }
+        }
+        6 => {
+            let mut sids = Vec::new();
+            let mut mts = Vec::new();
+            for s in l[5].list() {
+                mts.push(s.at(0).u16());
+                let a: [u8; 16] = s.at(1).bytes()[..].try_into().map_err(|_| BadCase("sid"))?;
+                sids.push(a);
+            }
+            ls::BgpLsNlri::Srv6Sid(ls::BgpLsSrv6SidNlri {
+                protocol_id: l[2].u8(),
+                identifier: l[3].u64(),
+                local_node: node_desc_of(&l[4])?,
+                sids,
+                multi_topo_ids: mts,
+            })
+        }
+        0 => ls::BgpLsNlri::Unknown { nlri_type: l[2].u16(), body: l[3].bytes() },
+        _ => return Err(BadCase("ls nlri kind")),
+    })
+}
+fn ls_val(n: &ls::BgpLsNlri) -> Val {
+    let t = |x: u8| Val::n(x);
+    match n {
+        ls::BgpLsNlri::Node(x) => Val::L(vec![t(15), t(1), Val::n(x.protocol_id), Val::n(x.identifier), node_desc_val(&x.local_node)]),
+        ls::BgpLsNlri::Link(x) => Val::L(vec![
+            t(15),
+            t(2),
+            Val::n(x.protocol_id),
+            Val::n(x.identifier),
+            node_desc_val(&x.local_node),
+            node_desc_val(&x.remote_node),
+            link_desc_val(&x.link_desc),
+        ]),
+        ls::BgpLsNlri::PrefixV4(x) => {
+            Val::L(vec![t(15), t(3), Val::n(x.protocol_id), Val::n(x.identifier), node_desc_val(&x.local_node), prefix_desc_val(&x.prefix_desc)])
+        }
+        ls::BgpLsNlri::PrefixV6(x) => {
+            Val::L(vec![t(15), t(4), Val::n(x.protocol_id), Val::n(x.identifier), node_desc_val(&x.local_node), prefix_desc_val(&x.prefix_desc)])
+        }
+        ls::BgpLsNlri::Srv6Sid(x) => Val::L(vec![
+            t(15),
+            t(6),
+            Val::n(x.protocol_id),
+            Val::n(x.identifier),
+            node_desc_val(&x.local_node),
+            Val::L(
+                x.sids
+                    .iter()
+                    .enumerate()
+                    .map(|(i, s)| Val::L(vec![Val::n(x.multi_topo_ids.get(i).copied().unwrap_or(0)), Val::from_bytes(s)]))
+                    .collect(),
+            ),
+        ]),
+        ls::BgpLsNlri::Unknown { nlri_type, body } => Val::L(vec![t(15), t(0), Val::n(*nlri_type), Val::from_bytes(body)]),
+    }
+}
+
 fn esi_of(v: &Val) -> Result<evpn::Esi, BadCase> {
     let b = v.bytes();
     let a: [u8; 10] = b[..].try_into().map_err(|_| BadCase("esi"))?;
@@ -384,6 +569,7 @@ fn nlri_of(v: &Val) -> Result<Nlri, BadCase> {
             }),
             _ => return Err(BadCase("mup route type")),
         }),
+        15 => Nlri::Ls(ls_of(l)?),
         13 => Nlri::SrPolicy(sr_policy::SrPolicyNlri {
             distinguisher: l[1].u32(),
             color: l[2].u32(),
@@ -435,6 +621,7 @@ fn nlri_val(fam: Family, n: &Nlri) -> Val {
             }
         },
         Nlri::Evpn(x) => evpn_val(x),
+        Nlri::Ls(x) => ls_val(x),
         Nlri::Mup(x) => match x {
             mup::MupNlri::InterworkSegmentDiscovery(r) => {
                 Val::L(vec![Val::n(14u8), Val::n(1u8), rd_val(&r.rd), Val::n(r.prefix_len), ip_val(&r.prefix_addr)])
